@@ -198,6 +198,10 @@ inductive ApiOp
   | sReserve (d n : Nat)
   | sDel (d : Nat)                             -- ~String(); new String
   | sSet (d : Nat) (bytes : List Nat)          -- d = String(bytes, len)   (assignment from a temporary)
+  | sPrepend (d : Nat) (bytes : List Nat)      -- prepend(const char*, len): `String copy(*this); detach(0, newLen); …`
+  | sResize (d n : Nat)                        -- resize(n) with n <= length(): detach(n, n)
+  | sEdit (d kind a b : Nat)                   -- detach(len, len) + edit: 0 replace(char a, char b), 1 toLowerCase(), 2 operator char*()
+  | sPrintf (d x : Nat)                        -- printf("%d", x): detach(0, 200)
   -- Variant
   | vCopy (d s : Nat)
   | vAssign (d s : Nat)
@@ -208,6 +212,10 @@ inductive ApiOp
   | vPush (d x : Nat)                          -- toList().append(Variant(x)) (mutable accessor)
   | vSwap (a b : Nat)
   | vSetList (d x : Nat)                       -- operator=(const List<Variant>&) with the one-element list [x]
+  | vPushA (d x : Nat)                         -- toArray().append(Variant(x))
+  | vSetArr (d x : Nat)                        -- operator=(const Array<Variant>&) with [x]
+  | vPutM (d k x : Nat)                        -- toMap().append(String(k), Variant(x))
+  | vSetMap (d k x : Nat)                      -- operator=(const HashMap<String, Variant>&) with {k: x}
   -- Xml::Variant
   | xCopy (d s : Nat)
   | xAssign (d s : Nat)
@@ -220,6 +228,9 @@ inductive ApiOp
   | pAssign (d s : Nat)
   | pClear (d : Nat)                           -- d = Ptr()
   | pSwap (a b : Nat)
+  | pLink (d s : Nat)                          -- d->next = s      (the handle embedded in the object d designates)
+  | pNext (d : Nat)                            -- d = d->next      (the assigned handle lives in the object d releases)
+  | pNextOf (d s : Nat)                        -- d = s->next
 deriving Repr
 
 def tagStr : Nat := 0
@@ -228,7 +239,23 @@ def tagVStr : Nat := 12
 def tagVList : Nat := 13
 def tagXText : Nat := 22
 def tagXElem : Nat := 23
+def tagVArr : Nat := 14
+def tagVMap : Nat := 15
 def tagObj : Nat := 30
+
+/-- the handle embedded in payload block `b` (RefCount object with a `next` pointer) is slot `embSlot b`;
+    single-threaded histories own these slots like every other slot -/
+def embBase : Nat := nSlots
+def maxBlocks : Nat := 232
+def nTotal : Nat := embBase + maxBlocks
+def embSlot (b : Nat) : Nat := embBase + b
+
+def lowerByte (c : Nat) : Nat := if 65 ≤ c ∧ c ≤ 90 then c + 32 else c
+
+/-- `HashMap::insert` at the end on the flat encoding [k1, v1, k2, v2, …]: an existing key keeps its place -/
+def mapPut : List Nat → Nat → Nat → List Nat
+  | k' :: v' :: r, k, v => if k' = k then k' :: v :: r else k' :: v' :: mapPut r k v
+  | _, k, v => [k, v]
 
 /-- `if(data->ref && Atomic::decrement(data->ref) == 0) delete …; data = &static` -/
 def rel (d : Nat) : List Act := [.dec d, .free]
@@ -270,6 +297,32 @@ def boxAssign (st : St) (tid d s : Nat) : List Act :=
     | .inl tag val => rel d ++ [.setInl d tag val]
     | .none => rel d
 
+/-- release of a RefCount::Ptr slot: when it is the last handle of an object, the destructor of the
+    object releases the embedded `next` handle (child first here; single-threaded the order of
+    the two decrements is not observable) -/
+def relP (st : St) (d : Nat) : Nat → List Act
+  | 0 => rel d
+  | fuel + 1 =>
+    match st.slots d with
+    | .blk b =>
+      match st.heap b, st.slots (embSlot b) with
+      | some blk, .blk _ => if blk.ref = 1 then relP st (embSlot b) fuel ++ rel d else rel d
+      | _, _ => rel d
+    | _ => rel d
+
+def relFuel : Nat := 64
+
+/-- `inc T src; release d; d = T` with the cascade computed in the state after the increment -/
+def ptrAssign (st : St) (tid d src : Nat) : List Act :=
+  match st.slots src with
+  | .blk _ =>
+    match astep st tid (.inc (tmpT tid) src) with
+    | some st1 => [.inc (tmpT tid) src] ++ relP st1 d relFuel ++ [.move d (tmpT tid)]
+    | none => [.inc (tmpT tid) src]
+  | _ => relP st d relFuel
+
+def embOf (st : St) (d : Nat) : Option Nat := match st.slots d with | .blk b => some (embSlot b) | _ => none
+
 /-- the steps of an API call up to and including its plain read of the counter (if it has one) -/
 def pre (st : St) (tid : Nat) : ApiOp → List Act
   | .sNew d bytes => rel d ++ [.alloc d tagStr bytes (strCap bytes.length)]
@@ -288,6 +341,15 @@ def pre (st : St) (tid : Nat) : ApiOp → List Act
   | .sAppend d bytes => [.readRef d ((viewVal st d).length + bytes.length ≤ blkCap st d)]
   | .sReserve d n => [.readRef d (max n (viewVal st d).length ≤ blkCap st d)]
   | .sDel d => rel d
+  | .sPrepend d bytes =>
+    (match st.slots d with
+      | .blk _ => [.inc (tmpU tid) d]
+      | .none => []
+      | .inl _ val => [.alloc (tmpU tid) tagStr val (strCap val.length)]) ++
+    [.readRef d ((viewVal st d).length + bytes.length ≤ blkCap st d)]
+  | .sResize d n => [.readRef d (n ≤ blkCap st d)]
+  | .sEdit d _ _ _ => [.readRef d true]
+  | .sPrintf d _ => [.readRef d (200 ≤ blkCap st d)]
   | .sSet d bytes =>
     [.alloc (tmpU tid) tagStr bytes (strCap bytes.length)] ++ shareAssign tid d (tmpU tid) ++ rel (tmpU tid)
   | .vCopy d s =>
@@ -303,6 +365,10 @@ def pre (st : St) (tid : Nat) : ApiOp → List Act
   | .vAppStr d _ => [.readRef d (blkTag st d == some tagVStr)]
   | .vPush d _ => [.readRef d (blkTag st d == some tagVList)]
   | .vSetList d _ => [.readRef d (blkTag st d == some tagVList)]
+  | .vPushA d _ => [.readRef d (blkTag st d == some tagVArr)]
+  | .vSetArr d _ => [.readRef d (blkTag st d == some tagVArr)]
+  | .vPutM d _ _ => [.readRef d (blkTag st d == some tagVMap)]
+  | .vSetMap d _ _ => [.readRef d (blkTag st d == some tagVMap)]
   | .vSwap _ b =>
     -- Variant tmp = other;
     (match st.slots b with
@@ -318,18 +384,24 @@ def pre (st : St) (tid : Nat) : ApiOp → List Act
   | .xClear d => rel d
   | .xSetStr d _ => [.readRef d (blkTag st d == some tagXText)]
   | .xElem d _ => [.readRef d (blkTag st d == some tagXElem)]
-  | .pNew d x => [.alloc (tmpT tid) tagObj [x] 0, .dec d, .free, .move d (tmpT tid)]
+  | .pNew d x => [.alloc (tmpT tid) tagObj [x] 0] ++ relP st d relFuel ++ [.move d (tmpT tid)]
   | .pCopy d s =>
     if d = s then [] else
-    rel d ++ (match st.slots s with
+    relP st d relFuel ++ (match st.slots s with
       | .blk _ => [.inc d s]
       | _ => [])
-  | .pAssign d s =>
-    match st.slots s with
-    | .blk _ => shareAssign tid d s
-    | _ => rel d
-  | .pClear d => rel d
+  | .pAssign d s => ptrAssign st tid d s
+  | .pClear d => relP st d relFuel
   | .pSwap a b => [.swap a b]
+  | .pLink d s => match embOf st d with
+    | some e => ptrAssign st tid e s
+    | none => [.move d d]            -- null pointer dereference: rejected
+  | .pNext d => match embOf st d with
+    | some e => ptrAssign st tid d e
+    | none => [.move d d]
+  | .pNextOf d s => match embOf st s with
+    | some e => ptrAssign st tid d e
+    | none => [.move d d]
 
 def isWriting (st : St) (tid : Nat) : Bool := match st.pc tid with | .writing _ _ => true | _ => false
 
@@ -350,7 +422,27 @@ def post (st : St) (tid : Nat) : ApiOp → List Act
   | .sReserve d n =>
     let v := viewVal st d
     if isWriting st tid then [.write v] else cloneAllocFirst tid d tagStr v (strCap (max n v.length))
+  | .sPrepend d bytes =>
+    let nv := bytes ++ viewVal st d
+    (if isWriting st tid then [.write nv] else cloneAllocFirst tid d tagStr nv (strCap nv.length)) ++ rel (tmpU tid)
+  | .sResize d n =>
+    let nv := (viewVal st d).take n
+    if isWriting st tid then [.write nv] else cloneAllocFirst tid d tagStr nv (strCap n)
+  | .sEdit d kind a b =>
+    let v := viewVal st d
+    let nv := if kind = 0 then v.map (fun c => if c = a then b else c) else if kind = 1 then v.map lowerByte else v
+    if isWriting st tid then [.write nv] else cloneAllocFirst tid d tagStr nv (strCap nv.length)
+  | .sPrintf d x =>
+    if isWriting st tid then [.write (decDigits x)] else cloneAllocFirst tid d tagStr (decDigits x) (strCap 200)
   | .vSetStr d bytes => if isWriting st tid then [.write bytes] else cloneReleaseFirst d tagVStr bytes
+  | .vPushA d x =>
+    if isWriting st tid then [.write (viewVal st d ++ [x])]
+    else cloneAllocFirst tid d tagVArr ((if blkTag st d == some tagVArr then viewVal st d else []) ++ [x]) 0
+  | .vSetArr d x => if isWriting st tid then [.write [x]] else cloneReleaseFirst d tagVArr [x]
+  | .vPutM d k x =>
+    if isWriting st tid then [.write (mapPut (viewVal st d) k x)]
+    else cloneAllocFirst tid d tagVMap (mapPut (if blkTag st d == some tagVMap then viewVal st d else []) k x) 0
+  | .vSetMap d k x => if isWriting st tid then [.write [k, x]] else cloneReleaseFirst d tagVMap [k, x]
   | .vAppStr d bytes =>
     if isWriting st tid then [.write (viewVal st d ++ bytes)]
     else
